@@ -60,3 +60,14 @@ package io
 //@   ensures cur [C12]: whence == 1 ==> wn(ow) == wrap_s64(old(wn(ow)) + offset)
 //@   ensures noerr [C12]: err == nil
 //@   ensures base_kept: ow.base == old(ow.base)
+
+//@ func NewOffsetReadSeeker
+//@   ghostinit result0
+//@   choose own_cursor: freshobj(result0) ==> cell(result0) == ref(result0)
+//@   ensures kind [C07,C09]: err == nil ==> typeis(result0, "*v2/internal/io.offsetReadSeeker") && freshobj(result0)
+//@   ensures at_origin [C07]: err == nil ==> pos(result0) == sbase(result0)
+//@   ensures zero_offset_ok [C07,C08,C09]: off == 0 ==> err == nil
+//@   ensures fail_nil [C09]: err != nil ==> result0 == nil
+
+//@ func (*offsetReadSeeker).Position
+//@   ensures def [C07]: result == wrap_s64(pos(o) - sbase(o))
